@@ -162,7 +162,7 @@ Theorem C04_trip_exclusive : forall m rv x, xreachable m rv x -> forall o x' e,
       xlog x' = rotated (xbumped (xlog x) (x_idx x) (x_tid x) (x_off x) (op_required (xlog x) o)) n /\
       xspec_pos x' = (n + 1) * l_tlen (xlog x)) \/
      (e = MaxPositionExceeded /\ n = two31 - 1 /\
-      xlog x' = xbumped (xlog x) (x_idx x) (x_tid x) (x_off x) (op_required (xlog x) o) /\ xspec_pos x' = xspec_pos x)).
+      xlog x' = xbumped (xlog x) (x_idx x) (x_tid x) (x_off x) (op_required (xlog x) o) /\ xspec_pos x' = l_tlen (xlog x) * two31)).
 Proof. exact c04x_trip. Qed.
 Print Assumptions C04_trip_exclusive.
 
